@@ -1693,7 +1693,9 @@ func c04Signed(r *Run, ppkg *packages.Package, lv *c04Level, g *opGuard, mul *c0
 							takesOperand = true
 						}
 					}
-					if takesOperand {
+					// … applied to the operand being completed, not to the level's own left side (a helper that
+					// receives the left operand and continues on `left - literal` groups ($a - 1) * 2)
+					if takesOperand && !c04PassesOwnLeft(info, src, c, isParseSig) {
 						depthNow++
 						scan(hd.Body, depthNow)
 						depthNow--
@@ -2234,4 +2236,36 @@ func c04FoldDirection(info *types.Info, body *ast.BlockStmt) string {
 		return true
 	})
 	return out
+}
+
+
+// c04PassesOwnLeft: one of the call's arguments is the variable that holds the level's own left operand
+// (the variable assigned from the function's first operand parse).
+func c04PassesOwnLeft(info *types.Info, fd *ast.FuncDecl, c *ast.CallExpr, isParseSig func(*types.Func) bool) bool {
+	var leftVar types.Object
+	for _, st := range fd.Body.List {
+		as, ok := st.(*ast.AssignStmt)
+		if !ok || len(as.Rhs) != 1 {
+			continue
+		}
+		call, ok := ast.Unparen(as.Rhs[0]).(*ast.CallExpr)
+		if !ok {
+			continue
+		}
+		if cal, _ := calleeOf(info, call).(*types.Func); cal != nil && isParseSig(cal) {
+			if id, ok := as.Lhs[0].(*ast.Ident); ok {
+				leftVar = info.ObjectOf(id)
+			}
+			break
+		}
+	}
+	if leftVar == nil {
+		return false
+	}
+	for _, a := range c.Args {
+		if id, ok := ast.Unparen(a).(*ast.Ident); ok && info.Uses[id] == leftVar {
+			return true
+		}
+	}
+	return false
 }
